@@ -44,7 +44,7 @@ def run(tier):
     env = bindlib.base_env(obs)
     records, meta = [], []
     counts = {"programs": 0, "rejected_at_compile_time": len(c.rejected), "decl_panics": 0, "decl_unparsable": 0,
-              "ser_errors": 0, "samples": 0}
+              "ser_errors": 0, "values_adjudicated": 0}
     for u in units:
         if "prog" not in u.meta or u.name in c.rejected:
             continue
@@ -69,7 +69,7 @@ def run(tier):
             records.append({"kind": "ser", "decls": [decl], "root": root, "json": tsparse.json_value(json.loads(s["ok"])),
                             "accepted": True, "reser": {"k": "null"}})
             meta.append((u, k, s["ok"], info["decl"]["ok"]))
-    counts["samples"] = len(records)
+    counts["values_adjudicated"] = len(records)
     bad, tool, a = bindlib.adjudicate(records, env, "c01")
     for i in sorted(bad):
         u, k, js, decl = meta[i - 1]
